@@ -46,6 +46,7 @@ def cases(ctx):
     return out
 
 def run(ctx):
+    ctx.explanation = ('partial: metadata/offset/varint size theorems are unconditional; the body bound n(W+4) is proved only conditionally on Huffman optimality (hypothesis: total code bits <= total reference-code bits) and is evaluated per instance on the exact sizes; known finding: bool delta moments take one byte each')
     ctx.rule = ("enc stream on adversarial distributions (uniform full range, alternating extremes, thousands of tiny clusters at "
                 "level 12, short dominant runs, type extremes, every dtype): the model computes the exact body bits and the exact "
                 "metadata bits from the decoded syntax tree (equal to the real sizes because the spec re-encoding reproduces the "
